@@ -45,7 +45,7 @@ _TRUE = {
     "mkdir": os.mkdir, "open": builtins.open, "datetime": _datetime_mod.datetime, "date": _datetime_mod.date, "Popen": _subprocess_mod.Popen,
     "time": _time_mod.time, "localtime": _time_mod.localtime, "gmtime": _time_mod.gmtime, "strftime": _time_mod.strftime,
     "readlink": os.readlink, "which": shutil.which, "os_write": os.write, "isatty": os.isatty, "fsync": os.fsync, "getpid": os.getpid,
-    "dup": os.dup, "close": os.close,
+    "dup": os.dup, "close": os.close, "fstat": os.fstat,
 }
 
 DEFAULT_STEP_BUDGET = 2_000_000
@@ -370,6 +370,21 @@ class _CountingFile:
             raise _oserror(ft["errno"])
         self._sim.lines[self._rel] = self._n
         return data
+
+    def fileno(self):
+        # the real file's descriptor where there is one; for content that exists only in the
+        # simulated machine (a CRLF checkout is synthesised in memory) a descriptor number of its
+        # own, which the fstat seam knows
+        try:
+            return self._f.fileno()
+        except (AttributeError, OSError, ValueError):
+            if getattr(self, "_fake_fd", None) is None:
+                node = _Inode(getattr(self, "_synth_bytes", b""))
+                node.mtime = int(getattr(self, "_synth_mtime", 0))
+                self._sim._next_fake_fd += 1
+                self._fake_fd = self._sim._next_fake_fd
+                self._sim.overlay_fds[self._fake_fd] = node
+            return self._fake_fd
 
     def close(self):
         self._sim.lines.setdefault(self._rel, self._n)
@@ -965,6 +980,8 @@ class Sim:
         return _SimStat(res, st_mtime=res.st_mtime + bump, st_mtime_ns=res.st_mtime_ns + bump * 10**9)
 
     def sim_stat(self, path, *a, **kw):
+        if isinstance(path, int) and (path in self.overlay_fds or self.is_fd1(path)):
+            return self.sim_fstat(path)
         if isinstance(path, int) or kw.get("dir_fd") is not None:
             return self.real_stat(path, *a, **kw)
         rel = self.relproj(path)
@@ -1180,6 +1197,13 @@ class Sim:
                 enc = kw.get("encoding") or (a[1] if len(a) > 1 else None) or self.encoding
                 real = io.TextIOWrapper(io.BytesIO(raw_bytes), encoding=enc, errors=kw.get("errors"), newline=kw.get("newline"))
             self.probe("crlf_checkout")
+            cf = _CountingFile(self, rel, real, self.fault_for("read", rel))
+            cf._synth_bytes = raw_bytes
+            try:
+                cf._synth_mtime = self.real_stat(self.realpath_of(file)[0]).st_mtime
+            except OSError:
+                cf._synth_mtime = 0
+            return cf
         else:
             real = self.real_open(self.realpath_of(file)[0], mode, *a, **kw)
         return _CountingFile(self, rel, real, self.fault_for("read", rel))
@@ -1281,6 +1305,20 @@ class Sim:
             self.raw_stdout.descriptor_closed()
             return None
         return _TRUE["close"](fd)
+
+    def inode_stat(self, node):
+        m = node.mtime
+        return _SimStat(self.real_stat(self.tool), st_size=len(node.data), st_mtime=float(m), st_mtime_ns=m * 10**9, st_ctime=float(m), st_ctime_ns=m * 10**9, st_mode=0o100644)
+
+    def sim_fstat(self, fd):
+        # descriptors that exist only in the simulated machine: the tool's own files and inputs
+        # planted in the overlay (fake numbers), and the simulated standard output
+        if fd in self.overlay_fds:
+            self.syscall()
+            return self.inode_stat(self.overlay_fds[fd])
+        if self.is_fd1(fd) and self.raw_stdout is not None:
+            return _SimStat(self.real_stat(self.tool), st_size=len(self.raw_stdout.accepted), st_blksize=self.bufsize, st_mode=(0o020620 if self.raw_stdout.tty else 0o100644))
+        return _TRUE["fstat"](fd)
 
     def sim_fsync(self, fd):
         if fd in self.overlay_fds:
@@ -1451,6 +1489,7 @@ class Sim:
             "fsync": os.fsync,
             "dup": os.dup,
             "close": os.close,
+            "fstat": os.fstat,
             "getpreferredencoding": _locale_mod.getpreferredencoding,
             "getencoding": getattr(_locale_mod, "getencoding", None),
         }
@@ -1635,6 +1674,7 @@ class Sim:
             os.fsync = self.sim_fsync
             os.dup = self.sim_dup
             os.close = self.sim_close
+            os.fstat = self.sim_fstat
             _locale_mod.getpreferredencoding = lambda do_setlocale=True: sim.encoding
             if saved["getencoding"] is not None:
                 _locale_mod.getencoding = lambda: sim.encoding
@@ -1711,6 +1751,7 @@ class Sim:
             os.fsync = saved["fsync"]
             os.dup = saved["dup"]
             os.close = saved["close"]
+            os.fstat = saved["fstat"]
             _locale_mod.getpreferredencoding = saved["getpreferredencoding"]
             if saved["getencoding"] is not None:
                 _locale_mod.getencoding = saved["getencoding"]
